@@ -650,6 +650,150 @@ theorem refusal_401_stops_the_channel (P : Params) (user stored : Bytes) (c : Co
       | malformed => rw [hr] at h; simp [answerOf, code_malformed] at h
       | raised => rw [hr] at h; simp [answerOf, code_exception] at h
 
+/-! ### A server built from a configuration file: `username=` / `password=` written literally or as `%(ENV_X)s` -/
+
+/-- **server_sections_parsed_after_environment_merge.**  Regenerated from `ServerOptions.read_config`,
+    `server_configs_from_parser`, `_parse_username_and_password`, `UnhosedConfigParser.saneget` and
+    `Options.__init__`: the ENV_ expansions start as a snapshot of `os.environ`; `parser.expansions` is bound once
+    to `self.environ_expansions` itself; the one loop `for k, v in section.environment.items():
+    self.environ_expansions['ENV_%s' % k] = v` precedes the one call `server_configs_from_parser(parser)`;
+    nothing else in `read_config` rebinds or empties either dictionary; `username`/`password` are
+    `parser.saneget(section, …, None)`, which expands with `parser.expansions`.  (Parsing the server sections
+    before the merge, or giving the parser a copy, changes one of these facts.) -/
+theorem server_sections_parsed_after_environment_merge :
+    rc_servers_parsed_after_env_merge = true ∧ rc_parser_shares_expansions = true ∧ rc_other_expansion_writes = [] ∧
+    rc_parser_expansions_src = "self.environ_expansions" ∧
+    rc_env_merges = [("section.environment", "self.environ_expansions", "ENV_")] ∧
+    rc_server_parse_calls = 1 ∧ rc_server_parse_args = ["parser"] ∧
+    init_snapshots_os_environ = true ∧ init_env_prefix = "ENV_" ∧ server_init_touches_expansions = false ∧
+    cred_options_expanded_by_parser = true ∧ server_sections_take_parsed_credentials = true ∧
+    saneget_expands_from_parser_expansions = true ∧ serverSectionsSeeSupervisordEnv = true := by decide
+
+/-- What the FILE gives `%(ENV_n)s` in a server section: the last `n=…` of `[supervisord] environment=` if
+    there is one, otherwise the value inherited from the process environment. -/
+def fileEnvValue (osenv se : Env) (n : Bytes) : Option Bytes :=
+  match se.reverse.lookup n with
+  | some v => some v
+  | none => osenv.lookup n
+
+/-- the text `w` of a server section stands for the value `v` -/
+def ConfiguredText (osenv se : Env) (w : Written) (v : Bytes) : Prop :=
+  expandWith (fileEnvValue osenv se) w = some v
+
+theorem mergedExpansions_eq (se : Env) : ∀ osenv : Env, mergedExpansions osenv se = se.reverse ++ osenv := by
+  induction se with
+  | nil => intro osenv; simp [mergedExpansions]
+  | cons kv rest ih =>
+    intro osenv
+    have := ih (dictSet osenv kv.1 kv.2)
+    simp only [mergedExpansions, List.foldl_cons] at this ⊢
+    rw [this]
+    simp [dictSet]
+
+theorem merged_lookup (osenv se : Env) (n : Bytes) :
+    (mergedExpansions osenv se).lookup n = fileEnvValue osenv se n := by
+  rw [mergedExpansions_eq, List.lookup_append, fileEnvValue]
+  cases se.reverse.lookup n <;> simp
+
+/-- the dictionary the server sections are expanded from gives every name the file's value -/
+theorem serverExpansions_lookup (osenv se : Env) (n : Bytes) :
+    (serverExpansions osenv se).lookup n = fileEnvValue osenv se n := by
+  have h : serverSectionsSeeSupervisordEnv = true := server_sections_parsed_after_environment_merge.2.2.2.2.2.2.2.2.2.2.2.2.2
+  simp only [serverExpansions, h, if_true]
+  exact merged_lookup osenv se n
+
+theorem expandW_server (osenv se : Env) (w : Written) :
+    expandW (serverExpansions osenv se) w = expandWith (fileEnvValue osenv se) w := by
+  unfold expandW
+  congr 1
+  funext n
+  exact serverExpansions_lookup osenv se n
+
+theorem allSome_getElem {α : Type} : ∀ (l : List (Option α)) (r : List α) (i : Nat) (x : Option α),
+    allSome l = some r → l[i]? = some x → ∃ y, x = some y ∧ r[i]? = some y := by
+  intro l
+  induction l with
+  | nil => intro r i x _ h; simp at h
+  | cons a rest ih =>
+    intro r i x hall hx
+    cases a with
+    | none => simp [allSome] at hall
+    | some a =>
+      cases hr : allSome rest with
+      | none => simp [allSome, hr] at hall
+      | some r' =>
+        simp only [allSome, hr, Option.map_some, Option.some.injEq] at hall
+        subst hall
+        cases i with
+        | zero =>
+          simp only [List.getElem?_cons_zero, Option.some.injEq] at hx
+          exact ⟨a, hx.symm, by simp⟩
+        | succ i =>
+          simp only [List.getElem?_cons_succ] at hx ⊢
+          exact ih r' i x hr hx
+
+/-- the section of the file whose `username=` / `password=` stand for `user` / `stored` reaches
+    `make_http_servers` with exactly those values -/
+theorem built_with_the_configured_credentials (f : ConfigFile) (se : Env) (secs : List Section) (i : Nat)
+    (uw pw : Written) (user stored : Bytes)
+    (hse : supervisordEnv f = some se) (hrc : readConfig f = some secs)
+    (hsec : f.servers[i]? = some ⟨some uw, some pw⟩)
+    (hu : ConfiguredText f.osenv se uw user) (hp : ConfiguredText f.osenv se pw stored) :
+    secs[i]? = some ⟨some user, some stored⟩ := by
+  simp only [readConfig, hse] at hrc
+  have hx : (f.servers.map (parseCreds (serverExpansions f.osenv se)))[i]? =
+      some (parseCreds (serverExpansions f.osenv se) ⟨some uw, some pw⟩) := by
+    rw [List.getElem?_map, hsec]; rfl
+  obtain ⟨y, hy, hr⟩ := allSome_getElem _ secs i _ hrc hx
+  have hpc : parseCreds (serverExpansions f.osenv se) ⟨some uw, some pw⟩ = some ⟨some user, some stored⟩ := by
+    unfold ConfiguredText at hu hp
+    simp only [parseCreds, expandW_server, hu, hp]
+  rw [hpc] at hy
+  simp only [Option.some.injEq] at hy
+  rw [hr, ← hy]
+
+/-- **file_server_serves_exactly_the_configured_credentials.**  For every accepted configuration file — any
+    process environment, any `[supervisord] environment=`, any number of server sections — and every section whose
+    `username=` / `password=` (literal text and `%(ENV_X)s` in any mixture) stand for `user` / `stored` *as the
+    file defines X* (its own `environment=` first, the inherited environment otherwise): a request to that
+    section's server runs a handler **iff** a handler matches and the request carries exactly `user` and the
+    password `stored` asks for.  In particular the value X has in the inherited environment, when the file
+    overrides it, is not a credential. -/
+theorem file_server_serves_exactly_the_configured_credentials (P : Params) (f : ConfigFile) (se : Env) (i : Nat)
+    (uw pw : Written) (user stored : Bytes)
+    (hse : supervisordEnv f = some se) (hacc : (readConfig f).isSome = true)
+    (hsec : f.servers[i]? = some ⟨some uw, some pw⟩)
+    (hu : ConfiguredText f.osenv se uw user) (hp : ConfiguredText f.osenv se pw stored)
+    (hits : String → Bool) (header : List Bytes) :
+    (∃ a, serveFile P f i hits header = some a ∧ a.invoked.isSome = true) ↔
+      (SomeHandlerMatches hits ∧ Authorized P user stored header) := by
+  cases hrc : readConfig f with
+  | none => rw [hrc] at hacc; simp at hacc
+  | some secs =>
+    have hs := built_with_the_configured_credentials f se secs i uw pw user stored hse hrc hsec hu hp
+    simp only [serveFile, hrc]
+    exact served_iff_authorized_per_server P secs i user stored hs hits header
+
+/-- … every other request to that server runs nothing -/
+theorem file_server_refuses_everything_else (P : Params) (f : ConfigFile) (se : Env) (i : Nat)
+    (uw pw : Written) (user stored : Bytes)
+    (hse : supervisordEnv f = some se) (hacc : (readConfig f).isSome = true)
+    (hsec : f.servers[i]? = some ⟨some uw, some pw⟩)
+    (hu : ConfiguredText f.osenv se uw user) (hp : ConfiguredText f.osenv se pw stored)
+    (hits : String → Bool) (header : List Bytes) (hnot : ¬ Authorized P user stored header) :
+    ∃ a, serveFile P f i hits header = some a ∧ a.invoked = none := by
+  cases hrc : readConfig f with
+  | none => rw [hrc] at hacc; simp at hacc
+  | some secs =>
+    have hs := built_with_the_configured_credentials f se secs i uw pw user stored hse hrc hsec hu hp
+    simp only [serveFile, hrc]
+    exact other_sections_credentials_refused P secs i user stored hs hits header hnot
+
+/-- a file that is rejected (a name that cannot be expanded, a username without a password) serves nothing -/
+theorem rejected_file_serves_nothing (P : Params) (f : ConfigFile) (i : Nat) (hits : String → Bool)
+    (header : List Bytes) (h : readConfig f = none) : serveFile P f i hits header = none := by
+  simp [serveFile, h]
+
 /-! ### Non-vacuity -/
 
 /-- toy runtime: base64 = identity, everything valid UTF-8, sha1hex = reverse -/
@@ -690,5 +834,38 @@ example : (serveConn { toyP with b64 := fun c => if c.length = 1 then none else 
        rq "uihandler" [([65, 117, 116, 104, 111, 114, 105, 122, 97, 116, 105, 111, 110, 58, 32, 66, 97, 115, 105, 99, 32, 33] : Bytes)],
        rq "defaulthandler" hdrOk]).map (fun a => a.map (·.status)) =
     [some none, some none, some (some 400), some none] := by decide
+
+-- a configuration file: process environment H=inh, U=root; `[supervisord] environment=H="cfg"`;
+-- `[unix_http_server] username=adm password=%(ENV_H)s`, and a second section with the literal credentials b:2
+def vH : Bytes := [72]
+def vU : Bytes := [85]
+def tInh : Bytes := [105, 110, 104]
+def tCfg : Bytes := [99, 102, 103]
+def tAdm : Bytes := [97, 100, 109]
+def tRoot : Bytes := [114, 111, 111, 116]
+def demoFile : ConfigFile :=
+  { osenv := [(vH, tInh), (vU, tRoot)],
+    supenv := [(vH, [.lit tCfg])],
+    servers := [⟨some [.lit tAdm], some [.env vH]⟩, ⟨some [.lit [98]], some [.lit [50]]⟩] }
+/-- `Authorization: Basic <cred>` -/
+def hdrOf (cred : Bytes) : List Bytes := [([65, 117, 116, 104, 111, 114, 105, 122, 97, 116, 105, 111, 110, 58, 32, 66, 97, 115, 105, 99, 32] : Bytes) ++ cred]
+example : supervisordEnv demoFile = some [(vH, tCfg)] := by decide
+example : readConfig demoFile = some [⟨some tAdm, some tCfg⟩, ⟨some [98], some [50]⟩] := by decide
+example : ConfiguredText demoFile.osenv [(vH, tCfg)] [.env vH] tCfg := by unfold ConfiguredText; decide
+example : (readConfig demoFile).isSome = true := by decide
+-- the configured password is served, the inherited one is refused
+example : (serveFile toyP demoFile 0 (fun _ => true) (hdrOf (tAdm ++ 58 :: tCfg))).map (·.invoked) =
+    some (some ("xmlrpchandler", some (tAdm, tCfg))) := by decide
+example : serveFile toyP demoFile 0 (fun _ => true) (hdrOf (tAdm ++ 58 :: tInh)) = some ⟨some 401, true, none⟩ := by decide
+-- a name defined only in the process environment is taken from there; a name defined nowhere rejects the file
+example : readConfig { demoFile with servers := [⟨some [.env vU], some [.lit [112, 45], .env vH]⟩] } =
+    some [⟨some tRoot, some ([112, 45] ++ tCfg)⟩] := by decide
+example : readConfig { demoFile with servers := [⟨some [.env [78]], some []⟩] } = none := by decide
+-- a later entry of environment= for the same name replaces the earlier one
+example : readConfig { demoFile with supenv := [(vH, [.lit tCfg]), (vH, [.lit [122]])], servers := [⟨some [], some [.env vH]⟩] } =
+    some [⟨some [], some [122]⟩] := by decide
+-- a value of environment= may itself refer to the process environment (never to environment= itself)
+example : readConfig { demoFile with supenv := [(vH, [.env vH, .lit [33]])], servers := [⟨some [], some [.env vH]⟩] } =
+    some [⟨some [], some (tInh ++ [33])⟩] := by decide
 
 end Sv.Props.C17
